@@ -12,6 +12,25 @@ REGISTRY = {}
 LEVEL = {}
 
 
+def traces(chk, profile, count, label, exact_tags=frozenset(), **kw):
+    """impl -> spec: `count` random scripts of the given profile, each run on the real code and validated by TLC
+    against spec/HpkeTrace.tla (every invariant at every step) with the byte obligations discharged"""
+    from . import randgen, tracecheck
+    gen = getattr(randgen, "gen_%s_profile" % profile)
+    for k in range(count):
+        sc = gen(seed() * 1000 + k, **kw)
+        bad = tracecheck.run_trace(chk, sc, "trace_%s_%d" % (profile, k), exact_tags=exact_tags)
+        chk.case(("trace", profile, seed() * 1000 + k, len(sc.cmds)))
+        if bad is not None:
+            tracecheck.report(chk, bad, label)
+            return False
+    if count:
+        chk.sample({"trace": label, "last_script_calls": len(sc.cmds),
+                    "excerpt": [{k2: (v if k2 != "args" else {a: e.trace() for a, e in v.items()}) for k2, v in c.items()}
+                                for c in sc.cmds[:3]]})
+    return True
+
+
 def prop(pid, level="model_checking"):
     def deco(fn):
         REGISTRY[pid] = fn
@@ -155,6 +174,8 @@ def c05(chk, tier):
                               MaxExports=1, HistLen=16),
                      invariants=["PrintHist"], on_value=onb, simulate=400 if thorough else 60, depth=18,
                      tlc_seed=seed())
+        # impl -> spec: random adversarial schedules with counter jumps anywhere in 0..2^64-1, validated by TLC
+        traces(chk, "seq", 20 if thorough else 2, "random adversarial schedule", nsteps=2000 if thorough else 400)
     finally:
         ses.close()
     chk.cov["rule"] = ("every open transition of the bounded model (delivery kind x source x receiver position in the "
@@ -199,6 +220,7 @@ def c06(chk, tier):
         if accepted_controls[0] == 0:
             raise ToolError("no positive control (accepted verbatim message) in the run")
         c06_single_shot(chk, ses, thorough)
+        traces(chk, "seq", 10 if thorough else 1, "random tampering", nsteps=1500 if thorough else 300)
     finally:
         ses.close()
     chk.notes["positive_controls_accepted"] = accepted_controls[0]
@@ -288,6 +310,9 @@ def c02(chk, tier):
                                          Emit=True, MaxShots=2, FormMenu='{"alloc", "detached"}'),
                               exact_tags=ALL, casekey=key,
                               want=lambda last, tr: last["op"].startswith("single_shot"))
+        # impl -> spec: random sessions; the specification's predicted outputs are evaluated by the oracle
+        traces(chk, "session", 10 if thorough else 1, "random sessions (exact)", exact_tags=ALL,
+               nsessions=8 if thorough else 4, nsteps=30, long=thorough)
     finally:
         ses.close()
     chk.cov["rule"] = ("every transition of the bounded setup model for all 48 suites x 4 modes (setup_s, setup_r, seal, "
@@ -370,6 +395,8 @@ def c01(chk, tier):
                          seq_over(AeadC=aead, Starts='"zero"', Menu='"inorder"', Emit=True, MaxSeals=4, MaxOpens=4, LenVar=lv),
                          invariants=[], on_value=on, workers=4)
                 batch.run()
+        traces(chk, "session", 12 if thorough else 2, "random sessions", nsessions=8 if thorough else 5, nsteps=40,
+               long=thorough)
     finally:
         ses.close()
     chk.cov["rule"] = ("every transition of the matching-pair setup model (suite x mode x both forms on both sides, <= 3 "
@@ -415,6 +442,8 @@ def c07(chk, tier):
                                          Vals='"leaf"', Shape='"one"', Perturb=qset(C07_BYTE_KINDS),
                                          Emit=True, MaxSeals=1, MaxOpens=1, MaxExports=1),
                               want=want, casekey=tr_key("c07b"))
+        traces(chk, "session", 10 if thorough else 2, "random sessions with one differing receiver argument",
+               nsessions=8, nsteps=12, mismatch=1.0)
     finally:
         ses.close()
     chk.cov["rule"] = ("sender x receiver pairs where the receiver differs in exactly one component (other info / psk / psk_id "
@@ -877,6 +906,9 @@ def c13(chk, tier):
                               Vals='"long"', Shape='"all"' if thorough else '"one"', Perturb='{"none", "info"}', Emit=True,
                               MaxSeals=1, MaxOpens=1, MaxExports=1, FormMenu='{"alloc", "detached"}')
             setup_transitions(chk, ses, "gen_long_%d" % kem, over, casekey=tr_key("c13"), compare_bytes=False)
+        traces(chk, "session", 6 if thorough else 1, "random sessions with long inputs", nsessions=4, nsteps=20, long=True,
+               mismatch=0.3)
+        traces(chk, "seq", 4 if thorough else 1, "random deliveries", nsteps=300)
     finally:
         ses.close()
     chk.cov["rule"] = ("every byte-consuming entry point (key / encapsulated key / tag deserialisation, doc-hidden KDF helpers, "
@@ -1187,6 +1219,7 @@ def c18(chk, tier):
                      invariants=["PrintHist"], on_value=onb, simulate=60 if thorough else 25, depth=12, tlc_seed=seed())
             if nwalk[0] == 0:
                 raise ToolError("no schedule generated")
+        traces(chk, "session", 8 if thorough else 2, "random sessions on random threads", nsessions=6, nsteps=30, threads=4)
     finally:
         ses.close()
     chk.cov["rule"] = ("interleavings and thread placements (3 threads) of three sessions with equal parameters (other / same RNG "
